@@ -910,6 +910,13 @@ func a4(w *World, r *Report) {
 		return
 	}
 	snap := callValue(snaps[0])
+	// the helper that builds and applies the EVM message, when it is not execVM itself
+	var deepFn *ssa.Function
+	if len(w.callsTo(fn, fref{"ctrlers/vm/evm", "EVMCtrler", "execVM"})) == 0 {
+		if deep := w.evmMessageDeep(fn); deep != nil {
+			deepFn = deep.Fn
+		}
+	}
 	event := func(in ssa.Instruction) string {
 		c, ok := in.(ssa.CallInstruction)
 		if !ok {
@@ -931,6 +938,16 @@ func a4(w *World, r *Report) {
 		}
 		if nm == "execVM" {
 			return "execVM"
+		}
+		// whatever the helper that applies the message is called
+		if deepFn != nil {
+			if cal := c.Common().StaticCallee(); cal != nil && w.InModule(cal) {
+				for _, g := range w.withModuleCallees(cal, 2) {
+					if g == deepFn {
+						return "execVM"
+					}
+				}
+			}
 		}
 		return ""
 	}
